@@ -338,7 +338,8 @@ class SoulSeekClient:
             self.events,
             self.shares,
             self.transfers,
-            self.network
+            self.network,
+            ticket_gen=self.ticket_generator
         )
 
     def create_server_manager(self) -> ServerManager:
